@@ -378,10 +378,14 @@ def replay_binary(layouts=()):
             pass
     env = dict(os.environ, RUSTUP_TOOLCHAIN="1.82.0", CARGO_NET_OFFLINE="true")
     cmd = ["cargo", "build", "--offline", "--target-dir", target, "--manifest-path", os.path.join(crate, "Cargo.toml")]
-    if feats:
-        cmd += ["--features", feats]
-    if "stone6" in layouts:
-        cmd += ["--no-default-features"]        # the crate's default feature is stone5; the two are mutually exclusive
+    # explicit feature set: layouts + exactly one Stone version + exactly one commitment hash variant
+    HASHV = ("keccak_160_lsb", "keccak_248_lsb", "blake2s_160_lsb", "blake2s_248_lsb")
+    fl = [f for f in sorted(layouts)]
+    if "stone6" not in fl and "stone5" not in fl:
+        fl.append("stone5")
+    if not any(h in fl for h in HASHV):
+        fl.append("keccak_160_lsb")
+    cmd += ["--no-default-features", "--features", ",".join(fl)]
     t0 = time.time()
     try:
         r = subprocess.run(cmd, capture_output=True, text=True, env=env, timeout=1500)
